@@ -151,7 +151,7 @@ TGetRet ==
 
 TCurOpen  == IsEvent("CurOpen") /\ ~closed /\ IsBtree(Ev.c) /\ ~cur.open
              /\ cur' = [open |-> TRUE, c |-> Ev.c, t |-> "start", k |-> 0]
-             /\ CurOthers /\ UNCHANGED trace /\ Advance /\ UNCHANGED closed
+             /\ CurOthers /\ UNCHANGED <<trace, cov>> /\ Advance /\ UNCHANGED closed
 TCurClose == IsEvent("CurClose") /\ CurClose /\ Advance /\ UNCHANGED closed
 TCurSeek  == IsEvent("CurSeek") /\ CurSeek(Ev.k) /\ Advance /\ UNCHANGED closed
 TCurFirst == IsEvent("CurFirst") /\ CurFirst /\ Advance /\ UNCHANGED closed
@@ -186,7 +186,7 @@ TEndRecord ==
            /\ nextRid' = nextRid + 1
            /\ logs' = AppendRec([rid |-> nextRid, h |-> 0, cid |-> 0, w |-> <<>>]) /\ AppendPool
            /\ UNCHANGED <<hist, logical, calls, queue, nextCid, covl, lw, rpos, lovl, cw, lastEnacted,
-                          tabs, dtabs, flushedCq, applied, durable, mode, rcv, ncrash, naux, lastRec, rdr, cur, trace>>)
+                          tabs, dtabs, flushedCq, applied, durable, mode, rcv, ncrash, naux, lastRec, rdr, cur, trace, cov>>)
     /\ Advance /\ UNCHANGED closed
 
 TCleanCovl ==
@@ -230,7 +230,7 @@ TEnactEnd ==
     /\ applied' = Max(applied, cw.rec.h)
     /\ cw' = [cw EXCEPT !.pc = "written", !.todo = {}]
     /\ UNCHANGED <<hist, logical, calls, queue, nextCid, covl, lw, nextRid, logs, pool, nextLogId, rpos, lovl,
-                   dtabs, flushedCq, durable, mode, rcv, ncrash, naux, lastRec, rdr, cur, trace>>
+                   dtabs, flushedCq, durable, mode, rcv, ncrash, naux, lastRec, rdr, cur, trace, cov>>
     /\ Advance /\ UNCHANGED closed
 
 TEndRead ==
@@ -252,7 +252,7 @@ TTablesFlushed ==
     /\ IF mode = "open" /\ NumCq > flushedCq THEN FlushTables
        ELSE IF mode = "open"
        THEN dtabs' = tabs /\ UNCHANGED <<hist, logical, calls, queue, nextCid, covl, lw, nextRid, logs, pool, nextLogId, rpos, lovl, cw,
-                   lastEnacted, tabs, flushedCq, applied, durable, mode, rcv, ncrash, naux, lastRec, rdr, cur, trace>>
+                   lastEnacted, tabs, flushedCq, applied, durable, mode, rcv, ncrash, naux, lastRec, rdr, cur, trace, cov>>
        ELSE Stutter
     /\ Advance /\ UNCHANGED closed
 
@@ -277,7 +277,7 @@ TClosed ==
     /\ closed' = TRUE /\ ~cur.open
     /\ rcv' = [rcv EXCEPT !.any = FALSE]
     /\ UNCHANGED <<hist, logical, calls, queue, nextCid, covl, lw, nextRid, logs, pool, nextLogId, rpos, lovl, cw, lastEnacted,
-                   tabs, dtabs, flushedCq, applied, durable, mode, ncrash, naux, lastRec, rdr, cur, trace>>
+                   tabs, dtabs, flushedCq, applied, durable, mode, ncrash, naux, lastRec, rdr, cur, trace, cov>>
     /\ Advance
 
 \* replay inside Db::open after a clean close
@@ -288,7 +288,7 @@ TClosedReplay ==
     /\ IF Rec[l].e = "EnactEnd"
        THEN /\ lastEnacted' = Arg(1) /\ rcv' = [rcv EXCEPT !.any = TRUE]
             /\ UNCHANGED <<hist, logical, calls, queue, nextCid, covl, lw, nextRid, logs, pool, nextLogId, rpos, lovl, cw, tabs, dtabs,
-                           flushedCq, applied, durable, mode, ncrash, naux, lastRec, rdr, cur, trace>>
+                           flushedCq, applied, durable, mode, ncrash, naux, lastRec, rdr, cur, trace, cov>>
        ELSE Stutter
     /\ Advance /\ UNCHANGED closed
 
@@ -302,7 +302,7 @@ TReopened ==
     /\ lastEnacted' = IF rcv.any THEN lastEnacted ELSE 1
     /\ nextCid' = 0
     /\ durable' = Len(hist) /\ applied' = Len(hist)
-    /\ UNCHANGED <<hist, logical, calls, queue, lw, cw, mode, rcv, ncrash, naux, lastRec, rdr, cur, trace>>
+    /\ UNCHANGED <<hist, logical, calls, queue, lw, cw, mode, rcv, ncrash, naux, lastRec, rdr, cur, trace, cov>>
     /\ Advance
 
 \* the process died here (the harness took the image at this point of the event stream)
@@ -313,7 +313,7 @@ TCrash ==
     /\ flushedCq' = 0 /\ rpos' = 0
     /\ rcv' = [f |-> 0, r |-> 0, any |-> FALSE, pre |-> 0, dmg |-> "none"]
     /\ closed' = FALSE
-    /\ UNCHANGED <<hist, logical, calls, nextRid, logs, pool, nextLogId, lastEnacted, tabs, dtabs, applied, durable, ncrash, naux, lastRec, rdr, cur, trace>>
+    /\ UNCHANGED <<hist, logical, calls, nextRid, logs, pool, nextLogId, lastEnacted, tabs, dtabs, applied, durable, ncrash, naux, lastRec, rdr, cur, trace, cov>>
     /\ Advance
 
 \* events of the replay inside Db::open of the image
@@ -322,7 +322,7 @@ TReplayEnact ==
     /\ lastEnacted' = Arg(1)
     /\ rcv' = [rcv EXCEPT !.any = TRUE]
     /\ UNCHANGED <<hist, logical, calls, queue, nextCid, covl, lw, nextRid, logs, pool, nextLogId, rpos, lovl, cw, tabs, dtabs,
-                   flushedCq, applied, durable, mode, ncrash, naux, lastRec, rdr, cur, trace>>
+                   flushedCq, applied, durable, mode, ncrash, naux, lastRec, rdr, cur, trace, cov>>
     /\ Advance /\ UNCHANGED closed
 
 TReplayOther ==
@@ -353,7 +353,7 @@ TRecovered ==
     /\ nextRid' = IF rcv.any THEN lastEnacted + 1 ELSE 1
     /\ lastEnacted' = IF rcv.any THEN lastEnacted ELSE 1
     /\ mode' = "open"
-    /\ UNCHANGED <<calls, queue, nextCid, covl, lw, rpos, lovl, cw, flushedCq, rcv, ncrash, naux, rdr, cur, trace>>
+    /\ UNCHANGED <<calls, queue, nextCid, covl, lw, rpos, lovl, cw, flushedCq, rcv, ncrash, naux, rdr, cur, trace, cov>>
     /\ Advance /\ UNCHANGED closed
 
 \* injected background error (store_err)
@@ -361,7 +361,7 @@ TStoreErr ==
     /\ IsEvent("StoreErr") /\ mode = "open"
     /\ mode' = "err"
     /\ UNCHANGED <<hist, logical, calls, queue, nextCid, covl, lw, nextRid, logs, pool, nextLogId, rpos, lovl, cw, lastEnacted,
-                   tabs, dtabs, flushedCq, applied, durable, rcv, ncrash, naux, lastRec, rdr, cur, trace>>
+                   tabs, dtabs, flushedCq, applied, durable, rcv, ncrash, naux, lastRec, rdr, cur, trace, cov>>
     /\ Advance /\ UNCHANGED closed
 
 \* events without a counterpart in this module (worker protocol, locks)
